@@ -5,7 +5,8 @@ Model of the bit-vector primitives of asmjit/support/support.h (`Internal::bit_v
 arenabitset.cpp: `append/_append/_resize/copy_from/truncate/clear_all/fill_all/and_/and_not/or_/
 _clear_unused_bits/equals/release`) for `BitWord = uint64_t`.  A buffer is a `List (BitVec 64)`; every access is
 bounds-checked (`none` = the C++ would touch a word outside the buffer).
-`ArenaBitSet::_resize` follows the REPAIRED code (fixes/C18-3.patch).  Core-only imports.
+`ArenaBitSet::_resize` follows the REPAIRED code (fixes/C18-3.patch and C18-8.patch: sizes above 2^32-64 bits are refused,
+the 32-bit capacity is clamped).  Core-only imports.
 -/
 import AsmjitVerif.Model.Arena
 namespace AsmjitVerif.Bits
@@ -145,7 +146,8 @@ def reallocWith (r : State × Option Loc × Nat) (b : BitSet) (keep : Nat) : Sta
     let a2 := match b.data with
       | some old => freeReusable a1 old (b.cap / 8)
       | none => a1
-    (a2, some (p, nw, capBits % u32))
+    -- repaired (fixes/C18-8.patch): `_capacity = uint32_t(min(allocated_capacity_in_bits, 0xFFFFFFC0))`
+    (a2, some (p, nw, min capBits 0xFFFFFFC0))
 
 /-- allocation part shared by `_resize` and `copy_from`: returns (arena, data, words (old copied: `keep` words), capacity) -/
 def realloc (a : State) (b : BitSet) (minCapBits keep : Nat) : State × Option (Loc × Words × Nat) :=
@@ -163,6 +165,7 @@ def resizeI (a : State) (b : BitSet) (newSize ideal : Nat) (value : Bool) : Opti
       | none => none
       | some w => some (a, { b with words := b.words.set (newSize / 64) (w &&& mask bit), size := newSize }, .ok)
     else some (a, { b with size := newSize }, .ok)
+  else if newSize > 0xFFFFFFC0 then some (a, b, .oom)      -- repaired (fixes/C18-8.patch): not representable in 32 bits
   else
     let oldSize := b.size
     let r : Option (State × BitSet) :=
